@@ -5,7 +5,6 @@ Driver for the `iofault` area (C10).
 
   iofault single <fires> <budget…> <a> <b> <c> <items…>   → `ok` | `err <kind>`
   iofault iter   <fires> <budget…> <a> <b> <c> <items…>   → items joined by `,` then ` end=<0|1>`
-  iofault framed <items…>                                  → `1` | `0`
   iofault writer <own 0|1> <wsched> <chunks>               → `<ok|io k|format|own> <written hex>`
 
 `fires` = `-` or `n:k` joined by `,`; budget as in the `pump` area (`-` or `<perdoc> <11 limits>`);
@@ -41,6 +40,7 @@ def errKind : Err → String
   | .pump e => pumpKind e
   | .eof => "eof"
   | .eofSynth => "eof"
+  | .unexpectedEnd => "unexpected_end"
   | .multiDoc => "multi_doc"
   | .client => "client"
   | .fuel => "fuel"
@@ -81,9 +81,6 @@ def handle : List String → String
         | .ok => "ok"
         | .err e => "err:" ++ errKind e
       (if items.isEmpty then "-" else String.intercalate "," items) ++ s!" end={boolTok r.2.1}"
-  | "framed" :: itemToks =>
-    let (items, left) := PumpDrv.parseItems itemToks #[]
-    if !left.isEmpty then "bad-op items" else boolTok (framed 0 items.toList)
   | ["writer", own, wsched, chunks] =>
     match parseList parseWItem wsched, parseList (fun t => hexBytes t.toList) chunks with
     | some ws, some cs =>
